@@ -921,10 +921,12 @@ pub struct CutAfter<F> {
     fut: Option<Pin<Box<F>>>,
     left: u32,
     hold: u32,
+    /// drop the future while a panic unwinds (what happens to a spawn future owned by a task that panics)
+    unwind: bool,
 }
 impl<F: Future> CutAfter<F> {
     pub fn new(fut: F, k: u32, hold: u32) -> Self {
-        Self { fut: Some(Box::pin(fut)), left: k, hold }
+        Self { fut: Some(Box::pin(fut)), left: k, hold: hold & 0x7f, unwind: hold & 0x80 != 0 }
     }
 }
 impl<F: Future> Future for CutAfter<F> {
@@ -932,7 +934,14 @@ impl<F: Future> Future for CutAfter<F> {
     fn poll(mut self: Pin<&mut Self>, cx: &mut Context<'_>) -> Poll<Self::Output> {
         if self.left == 0 {
             if self.hold == 0 {
-                self.fut = None;
+                let f = self.fut.take();
+                if self.unwind {
+                    // resume_unwind does not run the panic hook; the future is dropped by the unwinding
+                    let _ = std::panic::catch_unwind(std::panic::AssertUnwindSafe(move || {
+                        let _f = f;
+                        std::panic::resume_unwind(Box::new("spawn future dropped by a panicking owner"));
+                    }));
+                }
                 return Poll::Ready(None);
             }
             self.hold -= 1;
